@@ -32,3 +32,10 @@ Lemma hex4_is_the_stores len :
   Chunked.hex4 len = map (fun st => Chunked.hex_digit (N.land (N.shiftr len (snd st)) 15)) src_chunk_hex_stores.
 Proof. unfold Chunked.hex4. cbn [src_chunk_hex_stores map snd]. rewrite N.shiftr_0_r. reflexivity. Qed.
 
+
+(* hex_digit: the 16 arms of the source are the model's function on 0..15 (the argument is always masked with
+   0xF, so these are all the values it ever sees) *)
+Lemma hex_digit_table_tie :
+  map fst src_hex_digit_table = map N.of_nat (seq 0 16) /\
+  forallb (fun e => Chunked.hex_digit (fst e) =? snd e) src_hex_digit_table = true.
+Proof. split; vm_compute; reflexivity. Qed.
